@@ -11,4 +11,7 @@ META = {
 
 
 def obligations(tier: str) -> list[Ob]:
-    return skeleton_obs("C04", "endpoint", ["resp_"], tier, label="response", known_key="response")
+    obs = skeleton_obs("C04", "endpoint", ["resp_"], tier, label="response", known_key="response")
+    for o in obs:
+        o.params["include_unregistered"] = True  # the status pool also holds a code http.HTTPStatus does not register
+    return obs
